@@ -541,6 +541,37 @@ def gen_sound(tier, seed, env_text):
         h.append({"f": "g0", "args": [A("int")], "ret": A("NoneType"), "ys": [A("int")]})
         aband.append(h)
     add("a generator abandoned while suspended, then calls with frames of several sizes, in rounds", aband, [0], ["NONE", "DEFAULT"], [""])
+    # one long run (a single flush of 1100 rows): the value type is unique around every plausible chunk boundary (multiples of
+    # 50, 64, 100, 128, 250, 256, 500, 512, 1000, 1024), so a row lost or duplicated there changes an annotation
+    atoms6 = [A("int"), A("float"), A("bool"), A("bytes"), A("NoneType"), Sx("s")]
+    uniq = [C("tuple", *c) for n in (2, 3) for c in itertools.product(atoms6, repeat=n)]
+    marks = sorted({m + d for b in (50, 64, 100, 128, 250, 256, 500, 512, 1000, 1024) for m in range(b, 1100, b) for d in (-1, 0, 1)
+                    if 0 <= m + d < 1100})
+    long_run, ui = [], 0
+    for i in range(1100):
+        if i in marks and ui < len(uniq):
+            v = uniq[ui]
+            ui += 1
+        else:
+            v = A("int")
+        long_run.append({"f": "f1", "args": [v], "ret": v, "ys": []})
+    add("one flush of 1100 rows whose value types are unique around every plausible chunk boundary", [long_run], [0], ["NONE"], [""])
+    # records with an optional key whose value type occurs nowhere else, merged past the limit at stub time
+    rv = lambda **kv: C("dict", *[P(Sx(k), v) for k, v in kv.items()])  # noqa: E731
+    optv = []
+    for f in ("f1", "K.m"):
+        for other in (Sx("t"), A("float"), C("list", A("int"))):
+            optv.append([mk_call(f, [C("list", rv(a=A("int")), rv(a=A("int"), b=other))], A("int")),
+                         mk_call(f, [C("list", rv(c=A("int"), d=A("int")))], A("int"))])
+            optv.append([mk_call(f, [C("list", rv(c=A("int"), d=A("int")))], A("int")),
+                         mk_call(f, [C("list", rv(a=A("int")), rv(a=A("int"), b=other), rv(e=A("int")))], A("int"))])
+    add("an optional key whose value type occurs nowhere else, then more keys than the limit allows", optv, [2, 3], ["NONE", "DEFAULT"], [""])
+    # more than five homogeneous tuple shapes with TWO element types at one position
+    tshape = lambda a, n: C("tuple", *([a] * n))  # noqa: E731
+    two_elem = [[mk_call("f1", [t], t) for t in ([tshape(A("int"), n) for n in (1, 2, 3, 4)] + [tshape(Sx("s"), n) for n in ns])]
+                for ns in ((1, 2), (1,), (2, 3, 4))]
+    two_elem += [list(reversed(h)) for h in two_elem]
+    add("more than five homogeneous tuple shapes of two element types at one position", two_elem, [0], ["DEFAULT", "RLU5", "RLU2"], [""])
     # string keys that cannot be written as a field of a class-syntax TypedDict
     odd = [[mk_call(f, [dk("content-type", "a")], dk("class"))] for f in ("f1", "K.m")] + \
           [[mk_call("f1", [C("list", dk("1abc"), dk("a"))], dk("a b", "b"))], [mk_call("f0", [dk("a"), dk("")], C("list", dk("def", "x-y")))]]
